@@ -22,6 +22,12 @@ pub struct ReplayFile {
     /// true: the run must be executed as the first simulated run of a fresh process
     #[serde(default)]
     pub fresh_process: bool,
+    /// number of reference workloads executed single-threaded before the run (aged process)
+    #[serde(default)]
+    pub age: u32,
+    /// basic-block / load-store scheduling points (sim_bb build): 0 off, else mean gap
+    #[serde(default)]
+    pub bb_gap: u32,
     /// fresh-process runs: was the process warmed up with one parse + eval per kind (steady state)?
     #[serde(default)]
     pub fresh_warm_full: bool,
